@@ -1473,16 +1473,31 @@ impl<T> Arena<T> {
     {
         self.nodes.get(id.index0())
     }
-    #[verifier::external_body]
-    pub fn get_mut(&mut self, id: NodeId) -> Option<&mut Node<T>> {
+    pub fn get_mut(&mut self, id: NodeId) -> (r: Option<&mut Node<T>>)
+        // @props C11 C08
+        ensures
+            // @ob C11.get_mut_none_iff_out_of_range C11
+            r is Some <==> old(self).has(id),
+            // @ob C11.get_mut_addresses_the_slot_of_the_id C11 C08
+            r is Some ==> *r->0 == old(self).at(id),
+            // @ob C08.get_mut_writes_only_the_addressed_slot C08 C01
+            r is Some ==> final(self).nodes@ == old(self).nodes@.update(id.idx(), *final(r->0)),
+            r is None ==> final(self).nodes@ == old(self).nodes@,
+            final(self).first_free_slot == old(self).first_free_slot,
+            final(self).last_free_slot == old(self).last_free_slot,
+    {
         self.nodes.get_mut(id.index0())
     }
-    #[verifier::external_body]
-    pub fn iter(&self) -> slice::Iter<Node<T>> {
+    pub fn iter(&self) -> (r: slice::Iter<Node<T>>)
+        // @props C11
+        // (std's slice iterator has no specification view in vstd: the body is checked, the result is std's)
+    {
         self.nodes.iter()
     }
-    #[verifier::external_body]
-    pub fn iter_mut(&mut self) -> slice::IterMut<Node<T>> {
+    pub fn iter_mut(&mut self) -> (r: slice::IterMut<Node<T>>)
+        // @props C11
+        // (std's slice iterator has no specification view in vstd: the body is checked, the result is std's)
+    {
         self.nodes.iter_mut()
     }
     pub fn clear(&mut self)
